@@ -1,22 +1,65 @@
 import AcqVerif.Runtime.Client
 /-!
-# M1 — reachability and frame lemmas (which thread step can change which part of a stream)
+# M1 — reachability, and the proof principle for guarded-command threads:
+an invariant preserved by every action is preserved by every scheduler step
 -/
 namespace AcqVerif.Runtime
 open AcqVerif.Channel
 
-/-- reachable states of the runtime model: any schedule, from any state the window can open in -/
+theorem fire_some {σ : Type} (acts : List (Act σ)) (x y : σ) (o : List String) (h : fire acts x = some (y, o)) :
+    ∃ a ∈ acts, a.guard x = true ∧ y = a.upd x := by
+  unfold fire at h
+  cases hf : acts.find? (fun a => a.guard x) with
+  | none => rw [hf] at h; cases h
+  | some a =>
+    rw [hf] at h
+    simp only [Option.map_some, Option.some.injEq, Prod.mk.injEq] at h
+    exact ⟨a, List.mem_of_find?_eq_some hf, by simpa using List.find?_some hf, h.1.symm⟩
+
+theorem settleT_inv {σ : Type} (P : σ → Prop) (acts : List (Act σ)) (parked : σ → Bool)
+    (hP : ∀ a ∈ acts, ∀ x, a.guard x = true → P x → P (a.upd x)) :
+    ∀ (n : Nat) (r : σ × List String), P r.1 → P (settleT acts parked n r).1 := by
+  intro n
+  induction n with
+  | zero => intro r h; exact h
+  | succ n ih =>
+    intro r h
+    obtain ⟨y, o⟩ := r
+    unfold settleT
+    split
+    · exact h
+    · cases hf : fire acts y with
+      | none => exact h
+      | some zo =>
+        obtain ⟨z, o'⟩ := zo
+        simp only
+        obtain ⟨a, ha, hg, e⟩ := fire_some acts y z o' hf
+        exact ih (z, o ++ o') (by rw [e]; exact hP a ha y hg h)
+
+/-- **Proof principle**: what every action preserves, every scheduler step of the thread preserves. -/
+theorem stepThread_inv {σ : Type} (P : σ → Prop) (acts : List (Act σ)) (parked : σ → Bool) (fuel : Nat)
+    (hP : ∀ a ∈ acts, ∀ x, a.guard x = true → P x → P (a.upd x))
+    (x y : σ) (o : List String) (h : stepThread acts parked fuel x = some (y, o)) (hx : P x) : P y := by
+  unfold stepThread at h
+  cases hf : fire acts x with
+  | none => rw [hf] at h; cases h
+  | some r =>
+    rw [hf] at h
+    simp only [Option.some.injEq] at h
+    obtain ⟨z, o'⟩ := r
+    obtain ⟨a, ha, hg, e⟩ := fire_some acts x z o' hf
+    have := settleT_inv P acts parked hP fuel (z, o') (by rw [e]; exact hP a ha x hg hx)
+    rw [h] at this; exact this
+
+/-- reachable states of the runtime model: any schedule, from any state satisfying `init` -/
 inductive RReach (init : RT → Prop) : RT → Prop
   | init (rt : RT) : init rt → RReach init rt
-  | step (rt : RT) (t : Nat) (rt' : RT) : RReach init rt → rtStep rt t = some rt' → RReach init rt'
+  | step (rt : RT) (t : Nat) (rt' : RT) (o : List String) : RReach init rt → rtStep rt t = some (rt', o) → RReach init rt'
 
 theorem getS_setS_same (rt : RT) (s : Nat) (st : Stream) (h : s < rt.streams.length) : getS (setS rt s st) s = st := by
   simp [getS, setS, List.getD, h]
 
 theorem getS_setS_other (rt : RT) (s s' : Nat) (st : Stream) (h : s ≠ s') : getS (setS rt s st) s' = getS rt s' := by
-  simp [getS, setS, List.getD, List.getElem?_set, h]
-
-theorem setS_length (rt : RT) (s : Nat) (st : Stream) : (setS rt s st).streams.length = rt.streams.length := by
-  simp [setS]
+  simp [getS, setS, List.getD, h]
 
 end AcqVerif.Runtime
